@@ -94,6 +94,20 @@ theorem impl_refines_replay (p : Params) (g : Blk) (bs : List Blk) (s : UState)
   · intro c; rw [reported_iff hi, ha c, has_iff_mem]
 
 open TxHS in
+/-- … in particular for every path whose blocks pass body validation (`validateBody = none`, which
+computes duplicate-freeness and the cut-through rule): the hypotheses `Blk.Sane` and
+`cutThroughViolation = false` above are discharged by `Block::validate`. -/
+theorem impl_refines_replay_validated (p : Params) (outs : List OutDef) (g : Blk) (bs : List Blk)
+    (s : UState) (hgi : g.ins = []) (hgo : (g.outs.map (·.1)).Nodup)
+    (hb : ∀ b ∈ bs, ∃ iv, validateBody p outs b iv = none)
+    (hr : replay p (genesisState g) bs = .ok s) :
+    ∃ S, applyBlocks {} (g :: bs) = .ok S ∧ RInv S ∧
+      (∀ c, (S.getUnspent c).isSome = s.has c) ∧ (∀ c, c ∈ S.reported ↔ c ∈ s.utxo.map (·.1)) :=
+  impl_refines_replay p g bs s hgi hgo (fun b h => by
+    obtain ⟨iv, hv⟩ := hb b h
+    exact ⟨sane_of_validateBody p outs b iv hv, (validateBody_none p outs b iv hv).1⟩) hr
+
+open TxHS in
 /-- **Fork switch.** `P` = txhashset at the fork point (invariant holds), `d` = the branch being
 left, `u` = the branch being joined, both applicable from `P`. From the tip of `d`, rewinding
 block by block (tip first, each to its previous header's output size) and then applying `u` gives
@@ -143,6 +157,35 @@ theorem fork_switch_refines_replay (p : Params) (g : Blk) (pre d u : List Blk) (
       · exact (hbp b h).2) hP).1
     obtain ⟨T', h, _, hu'⟩ := fork_switch P S T d u hiP hctd (fun b hb => (hbu b hb).2) hnd hd hT
     exact ⟨P, T', rfl, h, fun c => by rw [hu' c]; exact haT c⟩
+
+open TxHS in
+/-- … and `switchTo` — the function the correspondence driver runs next to the real node on every
+head change (`Drv/ChainD.lean`), given the two root-first paths — *is* that fork switch: from the
+txhashset of path `g :: pre ++ d` to path `g :: pre ++ u` (diverging after `pre`) it ends in a
+txhashset that reports exactly the unspent set of `replay` along the new path. -/
+theorem switchTo_refines_replay (p : Params) (g : Blk) (pre d u : List Blk) (s : UState) (S : TxHS)
+    (hgi : g.ins = []) (hgo : (g.outs.map (·.1)).Nodup)
+    (hbp : ∀ b ∈ pre, b.Sane ∧ cutThroughViolation b = false)
+    (hbu : ∀ b ∈ u, b.Sane ∧ cutThroughViolation b = false)
+    (hctd : ∀ b ∈ d, cutThroughViolation b = false) (hnd : (d.map (·.id)).Nodup)
+    (hdiff : ∀ x y, d.head? = some x → u.head? = some y → x.id ≠ y.id)
+    (hd : applyBlocks {} (g :: pre ++ d) = .ok S)
+    (hr : replay p (genesisState g) (pre ++ u) = .ok s) :
+    ∃ T', switchTo S (g :: pre ++ d) (g :: pre ++ u) = .ok T' ∧
+      ∀ c, (T'.getUnspent c).isSome = s.has c := by
+  obtain ⟨P, T', hP, hsw, hun⟩ :=
+    fork_switch_refines_replay p g pre d u s S hgi hgo hbp hbu hctd hnd hd hr
+  have hctg : cutThroughViolation g = false := by
+    apply (cutThrough_false_iff g).mpr; intro c hc; rw [hgi] at hc; cases hc
+  have hct : ∀ b ∈ g :: pre, cutThroughViolation b = false := by
+    intro b hb
+    rcases List.mem_cons.mp hb with h | h
+    · exact h ▸ hctg
+    · exact (hbp b h).2
+  refine ⟨T', ?_, hun⟩
+  rw [show g :: pre ++ d = (g :: pre) ++ d from rfl, show g :: pre ++ u = (g :: pre) ++ u from rfl,
+    switchTo_eq S (g :: pre) d u hct hP hdiff]
+  exact hsw
 
 open TxHS in
 /-- **After every applied block the last output leaf is unspent** (the hypothesis of the C15
